@@ -144,7 +144,10 @@ def set_additive_error_model(
 
     """
     dv = get_dv_symbol(model, dv)
-    if has_additive_error_model(model, dv):
+    # NOTE: Nothing to do only if the model has this error model on the requested (untransformed) scale
+    if _canonicalize_data_transformation(model, data_trans, dv) == dv and has_additive_error_model(
+        model, dv
+    ):
         return model
     stats, y, f = _preparations(model, dv)
     ruv = create_symbol(model, 'epsilon_a')
@@ -255,7 +258,10 @@ def set_proportional_error_model(
 
     """
     dv = get_dv_symbol(model, dv)
-    if has_proportional_error_model(model, dv):
+    # NOTE: Nothing to do only if the model has this error model on the requested (untransformed) scale
+    if _canonicalize_data_transformation(model, data_trans, dv) == dv and has_proportional_error_model(
+        model, dv
+    ):
         return model
 
     stats, y, f = _preparations(model, dv)
@@ -381,7 +387,10 @@ def set_combined_error_model(
 
     """
     dv = get_dv_symbol(model, dv)
-    if has_combined_error_model(model, dv):
+    # NOTE: Nothing to do only if the model has this error model on the requested (untransformed) scale
+    if _canonicalize_data_transformation(model, data_trans, dv) == dv and has_combined_error_model(
+        model, dv
+    ):
         return model
     stats, y, f = _preparations(model, dv)
 
